@@ -295,3 +295,53 @@ def r_solveformat(A, ctx, scope, rule="R-SOLVEFORMAT"):
                         "are sparse for the solver and not for the guard, so they are not converted and their "
                         "arrays are read as a CSC triple", loc=loc(f, reads[0]))
     ctx.floor(rule, n, scope.get("floor", 5))
+
+
+def r_storage_state(A, ctx, scope, rule="R-STORAGE-STATE"):
+    ctx.rule(rule, "solver state does not depend on the storage format: under a test of `issparse(X)` a solver only "
+             "dispatches to sibling kernels / accessors and prepares X-derived auxiliaries; it does not define, "
+             "reorder or update the working set, the iterate or the model fit in one arm only (`if is_sparse: "
+             "ws.sort()`): the order in which coordinates are visited - hence the limit point for non-convex "
+             "penalties and every intermediate iterate - would differ between dense and sparse input")
+    flow = A.flow
+    n = 0
+    for name, sf in sorted(A.facts.items()):
+        f = sf.f
+        env = flow.env.get(f, {})
+        flags = {nm for nm, r in env.items() if "SPARSE" in r}
+        state = {nm for nm, r in env.items() if set(r) & {"WS", "W", "XW"}}
+        for node in ast.walk(f.node):
+            if not isinstance(node, ast.If):
+                continue
+            t = ast.unparse(node.test)
+            if not ("issparse" in t or names_in(node.test) & flags or "is_sparse" in t):
+                continue
+            n += 1
+
+            def touched(stmts):
+                out = {}
+                for s_ in stmts:
+                    if isinstance(s_, (ast.If, ast.For, ast.While)):
+                        continue
+                    if isinstance(s_, (ast.Assign, ast.AugAssign)):
+                        for t_ in (s_.targets if isinstance(s_, ast.Assign) else [s_.target]):
+                            for e in (t_.elts if isinstance(t_, ast.Tuple) else [t_]):
+                                b = e
+                                while isinstance(b, ast.Subscript):
+                                    b = b.value
+                                if isinstance(b, ast.Name) and b.id in state:
+                                    out[b.id] = s_
+                    if isinstance(s_, ast.Expr) and isinstance(s_.value, ast.Call) and isinstance(s_.value.func, ast.Attribute) \
+                            and isinstance(s_.value.func.value, ast.Name) and s_.value.func.value.id in state \
+                            and s_.value.func.attr in ("sort", "reverse", "fill", "resize", "partition"):
+                        out[s_.value.func.value.id] = s_
+                return out
+            a, b = touched(node.body), touched(node.orelse)
+            bad = [(k, v) for k, v in a.items() if k not in b] + [(k, v) for k, v in b.items() if k not in a]
+            ctx.ob(rule, f"{f.fq}::{norm_src(node.test)[:40]}::line-shape::{len(node.body)}/{len(node.orelse)}::{sorted(a) + sorted(b)}",
+                   not bad,
+                   what=(f"{f.qualname}: `{norm_src(bad[0][1])[:60]}` changes `{bad[0][0]}` under `{norm_src(node.test)[:30]}` only: "
+                         "the working set / iterate then depends on how X is stored, so dense and sparse runs visit "
+                         "coordinates differently and return different points") if bad else "",
+                   loc=loc(f, bad[0][1]) if bad else None)
+    ctx.floor(rule, n, scope.get("floor", 15))
